@@ -28,8 +28,7 @@ def tmpdir():
 
 
 def ir_cmd(src, out, opt="-O1", ndebug=True, stub=False):
-    cmd = [CXX, "-std=c++17", opt, "-gline-tables-only", "-fno-discard-value-names" if False else "-Wno-everything",
-           "-I", INC, "-I", HARNESS]
+    cmd = [CXX, "-std=c++17", opt, "-gline-tables-only", "-Wno-everything", "-I", INC, "-I", HARNESS]
     if stub:
         cmd += ["-I", STUBINC]
     if ndebug:
